@@ -78,6 +78,14 @@ F_SHORT = "C02-short-features-indexerror"
 # --------------------------------------------------------------------------
 # helpers
 # --------------------------------------------------------------------------
+def zl(xs):
+    xs = list(xs)
+    return common.zlist(xs) if xs else "(@nil Z)"
+
+
+FEATS_NIL = "(@nil (Z * Z * list (Z * Z * Z * Z * list Z)))"
+
+
 def kind_of(feat):
     if feat == "index":
         return 1
@@ -348,7 +356,14 @@ def run_export_case(case, workdir):
         ds.filter.manual[:] = mask
         ds.apply_filter()
         assert np.array_equal(ds.filter.all, mask), "filter setup"
-        feats_req = [f for f in case["features"] if f in ds]
+        fmode = case.get("fmode", "list")
+        basins = bool(case.get("basins", False))
+        if fmode == "default":
+            feats_req = list(ds.features_innate)
+        elif fmode == "empty":
+            feats_req = []
+        else:
+            feats_req = [f for f in case["features"] if f in ds]
         uniq = sorted(set(feats_req))
         names = {f: i for i, f in enumerate(uniq)}
         trnames = sorted(set(k for f in uniq if f == "trace"
@@ -376,14 +391,34 @@ def run_export_case(case, workdir):
                 if not fancy:
                     nonslice_feats.append(f)
                 cparts.append("(%d, %d, %d, %d, %s)" % (
-                    trrank.get(key, 0), sl, fancy, esize, common.zlist(toks)))
+                    trrank.get(key, 0), sl, fancy, esize, zl(toks)))
             coq_feats.append("(%d, %d, %s)" % (names[f], k,
                                                 common.clist(cparts)))
         src_count = int(ds.config["experiment"].get("event count", n))
         coq = "((%d, %d, %d, %d), %s, %s, (%d, %d), %s)" % (
             case["cfg"], ds.format == "hdf5", n, src_count,
-            common.clist(coq_feats), common.blist(mask), filtered, skip,
-            common.zlist([names[f] for f in feats_req]))
+            common.clist(coq_feats) if coq_feats else FEATS_NIL,
+            common.blist(mask) if len(mask) else "(@nil bool)", filtered, skip,
+            zl([names[f] for f in feats_req]
+                         if fmode != "default" else []))
+        # metadata of the source
+        rid_src = ds.config["experiment"].get("run identifier")
+        mid = ds.get_measurement_identifier()
+        sample_src = ds.config["experiment"].get("sample")
+        stok = lambda x: zlib.crc32(str(x).encode("utf-8"))  # noqa: E731
+        want_logs = bool(case.get("logs", False))
+        want_tables = bool(case.get("tables", False))
+        nlogs_src = len(list(ds.logs.keys()))
+        ntabs_src = len(list(ds.tables.keys()))
+        coq = "(%s, (%d, %s), (%d, %d, %d), (%s, %s, %d, %s, %s))" % (
+            coq, fmode != "default",
+            zl([names[f] for f in ds.features_innate if f in names]),
+            want_logs, want_tables, basins,
+            zl([stok(rid_src)] if rid_src is not None else []),
+            zl([stok(mid)] if rid_src is None and mid is not None
+                         else []),
+            stok(sample_src) if sample_src is not None else 0,
+            zl(range(nlogs_src)), zl(range(ntabs_src)))
         res["coq"] = coq
         # --- expected selection (property) ---------------------------------
         idx = np.flatnonzero(mask) if filtered else np.arange(n)
@@ -393,9 +428,10 @@ def run_export_case(case, workdir):
         out = os.path.join(workdir, "out.rtdc")
         err = None
         try:
-            ds.export.hdf5(out, features=list(feats_req), filtered=filtered,
-                           logs=case.get("logs", False),
-                           tables=case.get("tables", False),
+            ds.export.hdf5(out, features=(None if fmode == "default"
+                                          else list(feats_req)),
+                           filtered=filtered,
+                           logs=want_logs, tables=want_tables, basins=basins,
                            skip_checks=skip, override=True)
         except NotImplementedError as e:
             err = (1, e)
@@ -457,9 +493,35 @@ def run_export_case(case, workdir):
                                 " (first difference at position %d)" % next(
                                     i for i in range(len(want))
                                     if toks[i] != want[i])))
-            extra = sorted(set(ev.keys()) - set(uniq))
+            extra = sorted(k for k in set(ev.keys()) - set(uniq)
+                           if not (basins and k.startswith("basinmap")))
             if extra:
                 fails.append("features %s were not requested" % extra)
+            # metadata part of the flat encoding
+            rid_out = h5.attrs.get("experiment:run identifier")
+            if isinstance(rid_out, bytes):
+                rid_out = rid_out.decode("utf-8")
+            flat.append(-2)
+            if rid_out is None:
+                flat += [0]
+            elif not filtered and rid_out == rid_src:
+                flat += [1, 1, stok(rid_out), 0]
+            else:
+                mm = re.fullmatch(r"(.*)-([0-9a-f]{4})", str(rid_out))
+                if mm:
+                    flat += [1] + ([0] if mm.group(1) == "None" else
+                                   [1, stok(mm.group(1))]) + [1]
+                else:
+                    flat += [1, 1, stok(rid_out), 0]
+            smp_out = h5.attrs.get("experiment:sample")
+            if isinstance(smp_out, bytes):
+                smp_out = smp_out.decode("utf-8")
+            flat.append(stok(smp_out) if smp_out is not None else 0)
+            flat.append(len([k for k in h5.get("logs", {})
+                             if k.startswith("src_")
+                             and h5["logs"][k].size]))
+            flat.append(len([k for k in h5.get("tables", {})
+                             if k.startswith("src_")]))
         res["flat"] = flat
         exp_count = len(exp_idx) if uniq else (
             int(mask.sum()) if filtered else src_count)
@@ -695,10 +757,111 @@ def run_stacks_case(case, workdir):
     elif any(len(ch) == 0 or len(ch) > c for ch in chunks):
         fail = "a stack is empty or larger than the chunk size %d" % c
     coq = "(%d, %d, %d, %s, %s)" % (case["route"], case["cfg"], esize,
-                                     common.zlist(int(v) for v in arr[:, 0]),
-                                     common.zlist(idx))
+                                     zl(int(v) for v in arr[:, 0]),
+                                     zl(idx))
     return dict(flat=flat, coq=coq, fail=fail, finding=None,
                 nontrivial=len(chunks) >= 2, info=dict(c=c))
+
+
+# --------------------------------------------------------------------------
+# direct calls of store_filtered_feature: every non-scalar kind x both routes
+# x selection sizes k*c-1, k*c, k*c+1 (k = 1, 2, 3); a fixed grid, part of
+# every run
+# --------------------------------------------------------------------------
+SFF_FEATS = ["image", "image_bg", "mask", "trace", NONSCALAR_TEMP]
+
+
+def sff_grid(rng):
+    cases = []
+    for feat in SFF_FEATS + ["contour"]:
+        for route in ((1,) if feat == "contour" else (0, 1)):
+            for k in (1, 2, 3):
+                for dl in (-1, 0, 1):
+                    cases.append(dict(kind="sff", feat=feat, route=route, k=k,
+                                      dl=dl, seed=rng.randint(0, 10 ** 6)))
+    return cases
+
+
+def run_sff_case(case, workdir):
+    import warnings
+    import numpy as np
+    import h5py
+    from dclab.rtdc_dataset import writer, export
+    from dclab.rtdc_dataset.writer import RTDCWriter
+    from . import gen
+    warnings.simplefilter("ignore")
+    register_temp()
+    os.makedirs(workdir, exist_ok=True)
+    rng = random.Random(case["seed"])
+    feat, route = case["feat"], case["route"]
+    c = 10
+    size = case["k"] * c + case["dl"]
+    n = size + rng.randint(1, 4)
+    idx = sorted(rng.sample(range(n), size))
+    filt = np.zeros(n, dtype=bool)
+    filt[idx] = True
+    if feat in ("image", "image_bg"):
+        parts = {"": np.array([[[rng.randint(0, 255) for _ in range(9)]
+                                for _ in range(6)] for _ in range(n)],
+                              dtype=np.uint8)}
+    elif feat == "mask":
+        parts = {"": np.array([[[rng.random() < .4 for _ in range(9)]
+                                for _ in range(6)] for _ in range(n)],
+                              dtype=bool)}
+    elif feat == "trace":
+        parts = {tr: np.array([[rng.randint(-99, 999) for _ in range(12)]
+                               for _ in range(n)], dtype=np.int16)
+                 for tr in ("fl1_raw", "fl1_median")}
+    elif feat == "contour":
+        parts = {"": [gen.random_contour(rng) for _ in range(n)]}
+    else:
+        parts = {"": np.array([[rng.randint(-9, 9) / 4 for _ in range(3)]
+                               for _ in range(n)])}
+    wrap = (lambda a: IntOnly(a)) if (route == 1 and feat != "contour") \
+        else (lambda a: a)
+    data = ({k: wrap(v) for k, v in parts.items()} if feat == "trace"
+            else wrap(parts[""]))
+    trrank = {"": 0, "fl1_median": 1, "fl1_raw": 2}
+    old_cfg = writer.CHUNK_SIZE_BYTES
+    writer.CHUNK_SIZE_BYTES = 1
+    out = os.path.join(workdir, "sff.rtdc")
+    try:
+        with RTDCWriter(out, mode="append") as hw:
+            hw.store_metadata(gen.base_meta(with_fl=True))
+            export.store_filtered_feature(hw, feat, data, filt)
+    finally:
+        writer.CHUNK_SIZE_BYTES = old_cfg
+    flat = [0]
+    fail = None
+    cparts = []
+    with h5py.File(out, "r") as h5:
+        ev = h5["events"]
+        for key, arr in parts.items():
+            src = [tok(arr[i]) for i in range(n)]
+            if feat == "contour":
+                got = [tok(ev[feat][str(i)][:]) for i in range(len(ev[feat]))]
+            elif feat == "trace":
+                got = [tok(r) for r in ev[feat][key][:]]
+            elif feat == "mask":
+                got = [tok(r != 0) for r in ev[feat][:]]
+            else:
+                got = [tok(r) for r in ev[feat][:]]
+            flat += [0, trrank[key], len(got)] + got
+            if got != [src[i] for i in idx] and fail is None:
+                fail = ("store_filtered_feature(%s, route %d): %d events "
+                        "stored, expected the %d selected ones in order" % (
+                            feat, route, len(got), len(idx)))
+            if feat == "contour":
+                sl, fancy, esize = 0, 0, 8
+            else:
+                sl = fancy = int(route == 0)
+                esize = int(np.prod(arr.shape[1:])) * arr.dtype.itemsize
+            cparts.append("(%d, %d, %d, %d, %s)" % (trrank[key], sl, fancy,
+                                                     esize, zl(src)))
+    coq = "(1, (0, %d, %s), %s)" % (kind_of(feat), common.clist(cparts),
+                                    common.blist(filt))
+    return dict(flat=flat, coq=coq, fail=fail, finding=None, nontrivial=True,
+                info={})
 
 
 # --------------------------------------------------------------------------
@@ -742,6 +905,11 @@ def run_tsv_case(case, workdir):
     ds.filter.manual[:] = mask
     ds.apply_filter()
     req = [f for f in case["features"] if f.lower() in ds.features_scalar]
+    if case.get("anc"):
+        # features that are not stored but computed (ancillary)
+        anc = sorted(set(ds.features_scalar) - set(ds.features_innate)
+                     - {"index"})
+        req = req + anc[:3]
     if not req:
         req = sorted(ds.features_scalar)[:2]
     uniq = sorted(set(f.lower() for f in req))
@@ -756,7 +924,7 @@ def run_tsv_case(case, workdir):
         if dyadic:
             coq_feats.append("(%d, %d, [(0, 1, 1, 8, %s)])" % (
                 names[f], 1 if f == "index" else 0,
-                common.zlist(ftok(x) for x in v)))
+                zl(ftok(x) for x in v)))
     out = os.path.join(workdir, "out.tsv")
     ds.export.tsv(out, features=list(req), filtered=filtered, override=True,
                   meta_data={"verif": "c02"})
@@ -797,7 +965,7 @@ def run_tsv_case(case, workdir):
             flat = [7]
         coq = "(%s, %s, %d, %s)" % (common.clist(coq_feats),
                                     common.blist(mask), filtered,
-                                    common.zlist([names[f.lower()]
+                                    zl([names[f.lower()]
                                                   for f in req]))
     return dict(flat=flat, coq=coq, fail=fail, finding=None,
                 nontrivial=len(idx) >= 2 and len(uniq) >= 1, info={})
@@ -899,6 +1067,12 @@ def gen_export_case(rng, thorough=False):
         rng.shuffle(feats)
     case["src"] = src
     case["features"] = feats
+    r = rng.random()
+    case["fmode"] = "default" if r < 0.12 else ("empty" if r < 0.18 else "list")
+    if t in ("tdms", "hier-tdms") and case["fmode"] == "default":
+        case["fmode"] = "list"
+    case["basins"] = bool(rng.random() < 0.3 and
+                          (len(case["mask"]) > 0 or not case["filtered"]))
     return case
 
 
@@ -956,8 +1130,15 @@ def gen_tsv_case(rng, thorough=False):
     if rng.random() < 0.3:
         feats[0] = feats[0].upper() if feats[0] != SCALAR_TEMP else feats[0]
     mask = pick_mask(rng, nn, max(2, nn // 2))
-    return dict(kind="tsv", src=src, mask=mask, features=feats,
-                filtered=rng.random() < 0.75)
+    case = dict(kind="tsv", src=src, mask=mask, features=feats,
+                filtered=rng.random() < 0.7)
+    if rng.random() < 0.25:
+        # ancillary features (aspect, circ, time, ...): values are not
+        # dyadic, oracle only
+        case["anc"] = True
+        case["real"] = True
+        src["special"] = False
+    return case
 
 
 def gen_tsv_real_case(rng):
@@ -973,9 +1154,9 @@ def gen_tsv_real_case(rng):
 # --------------------------------------------------------------------------
 # driver
 # --------------------------------------------------------------------------
-RUNNERS = {"export": run_export_case, "stacks": run_stacks_case,
+RUNNERS = {"export": run_export_case, "sff": run_sff_case, "stacks": run_stacks_case,
            "tsv": run_tsv_case}
-MODEL_FN = {"export": "export_flat", "stacks": "stacks_flat",
+MODEL_FN = {"export": "export_full_flat", "sff": "sff_flat", "stacks": "stacks_flat",
             "tsv": "tsv_flat"}
 HEADER = ("From Coq Require Import ZArith List.\nImport ListNotations.\n"
           "From Verif Require Import Model.C02.\n")
@@ -1022,13 +1203,14 @@ def run(run):
     cases = load_corpus()
     run.count("corpus", len(cases))
     n_exp, n_st, n_tsv, n_real = ((1500, 1500, 400, 40) if run.thorough
-                                  else (170, 200, 50, 6))
+                                  else (150, 160, 50, 6))
+    cases += sff_grid(rng)
     cases += [gen_export_case(rng, run.thorough) for _ in range(n_exp)]
     cases += [gen_stacks_case(rng, run.thorough) for _ in range(n_st)]
     cases += [gen_tsv_case(rng, run.thorough) for _ in range(n_tsv)]
     cases += [gen_tsv_real_case(rng) for _ in range(n_real)]
     results = run_cases(cases, run.scratch)
-    by_kind = {"export": [], "stacks": [], "tsv": []}
+    by_kind = {"export": [], "stacks": [], "tsv": [], "sff": []}
     for c, r in zip(cases, results):
         run.record_case(c, r["nontrivial"])
         run.count("kind:" + c["kind"])
@@ -1038,6 +1220,16 @@ def run(run):
             run.count("nsel=%s" % bucket(r["info"].get("nsel")))
             for f in set(c["features"]):
                 run.count("feat-kind:%d" % kind_of(f))
+            run.count("fmode:%s" % c.get("fmode", "list"))
+            run.count("basins:%d" % bool(c.get("basins")))
+        elif c["kind"] == "sff":
+            run.count("sff:%s:%s:%dc%+d" % (c["feat"],
+                                            "slow" if c["route"] else "fast",
+                                            c["k"], c["dl"]))
+        elif c["kind"] == "tsv":
+            run.count("tsv:%s%s" % ("filtered" if c["filtered"] else
+                                    "unfiltered", ":anc" if c.get("anc")
+                                    else ""))
         elif c["kind"] == "stacks":
             run.count("route:%d" % c["route"])
             run.count("nidx/c=%s" % (len(c["idx"]) // r["info"].get("c", 10)
